@@ -26,6 +26,7 @@ EXPLANATION = (
     "bound left in a scratch buffer. Positive controls: the same detectors must "
     "find a draw and a generator() call in KZG10::setup. Pairing consistency of the SRS, exact power windows and the "
     "doubling tables are runtime facts and are not decided.")
+EXPLANATION += (" Shared rule: R17 on the trims - what is de-duplicated has been sorted, and the tables that are binary-searched later are sorted where they are built.")
 RULE = ("instances = 2 transparency rows + 7 trims x {no draw, no fresh generator} + refusal rows + positive controls + "
         "one name-agreement instance per key literal")
 
@@ -75,6 +76,16 @@ def run(rep, ctx, tier):
     rep.count("R1p loops", nl)
     if nl < 1:
         rep.add("R1p", "per-item-fresh:floor", False, "no parameter-driven loop found in trim / prepare (counted 4; floor 1; fail closed)", None)
+    # R17 on the trims (shared with C04): what `trim` de-duplicates has been sorted, so the keys hold each enforced bound
+    # once, and the per-bound tables that are binary-searched later are sorted where they are built
+    from ..rules import sorted as R17
+    trim_scope = set()
+    for b in f.bodies.values():
+        if b.kind != "Closure" and b.name == "trim" and b.span:
+            trim_scope |= f.closure([b.id], b.self_adt)
+    rep.count("R17 dedup sites", R17.run_dedup(rep, ctx, trim_scope, "R17"))
+    own = set(f.bodies) - f.closure([x.id for x in f.bodies.values() if x.kind != "Closure" and x.name == "evaluate_query_set" and not x.self_adt and not x.in_trait], None)
+    R17.run(rep, ctx, own, "R17")
     # purity of trim
     trims = [("%s.trim" % sk, f.find1("trim", self_adt=S[sk]["adt"], trait=PC), S[sk]["adt"]) for sk in S]
     trims.append(("multilinear.trim", f.find1("trim", self_adt=ML, trait=""), None))
